@@ -547,7 +547,7 @@ def dtype_predicate(fn, a_int, out_int, dtype, layout="C", codes=None):
 
 # ----------------------------------------------------------------------------- ast tie
 TIE_HEADER = """From Coq Require Import List ZArith Bool Uint63. Import ListNotations.
-From TLV Require Import Base.Tensor Model.BaseExt Model.BasePy Corr.C01.
+From TLV Require Import Base.Tensor Model.BaseExt Model.BasePy Model.BasePyCore Corr.C01.
 """
 TIE_TACTIC = """Ltac tie_mon := repeat match goal with |- context [rbind ?r _] => destruct r; cbn [rbind] end.
 """
@@ -568,6 +568,8 @@ BOX = {
                               "F (arange s) sb se"),
     "partial_vec_to_tensor": ("'(s, z, sb)", "flat_map (fun s => flat_map (fun z => map (fun sb => (s, z, sb)) (box_skips s)) (box_targets s)) box_shapes",
                               "F (arange s) z sb 0%Z"),
+    "moveaxis_generic": ("'(s, a, b)", "flat_map (fun s => flat_map (fun a => map (fun b => (s, a, b)) (zrange (- Z.of_nat (length s) - 1) (2 * length s + 4))) (box_modes s)) box_shapes",
+                         "F (arange s) a b"),
     "matricize": ("'(s, r, c)",
                   "flat_map (fun s => flat_map (fun r => (s, r, None) :: map (fun c => (s, r, Some c)) (box_mode_lists s)) (box_mode_lists s)) "
                   "(flat_map (lists_over [0; 1; 2; 3]%nat) [0; 1; 2]%nat ++ [[2; 3; 2]; [1; 2; 3]; [0; 2; 1]]%nat)", "F (arange s) r c"),
@@ -593,14 +595,19 @@ def run_ast_tie(chk):
         src = open(src_path).read()
         items = C01_ast.translate(src)
         dflt = C01_ast.defaults(src)
+        items += C01_ast.translate_core(open(os.path.join(C.REPO, "tensorly", "backend", "core.py")).read())
     except (SyntaxError, OSError) as e:
-        chk.broken.append({"what": "ast tie: tensorly/base.py cannot be read / parsed", "detail": str(e)})
+        chk.broken.append({"what": "ast tie: tensorly/base.py or tensorly/backend/core.py cannot be read / parsed", "detail": str(e)})
         chk.cov["ast_tie"] = res
         return res
+    sigs = dict(C01_ast.SIGS); sigs["moveaxis_generic"] = C01_ast.CORE_SIGS["moveaxis"]
+    # a function added to base.py that is not one of the nine is not part of the property: recorded, not a broken tie
+    res["not_modelled"] = [name for name, text, _ in items if text is None and name not in C01_ast.SIGS and name != "moveaxis_generic"]
+    items = [it for it in items if it[0] not in res["not_modelled"]]
     for name, text, why in items:
         if text is None:
             res["untranslated"].append(f"{name}: {why}")
-            chk.broken.append({"what": f"ast tie: tensorly.base.{name} is outside the translated fragment (the model cannot be regenerated from the source)",
+            chk.broken.append({"what": f"ast tie: {'tensorly.backend.core.Backend.moveaxis' if name == 'moveaxis_generic' else 'tensorly.base.' + name} is outside the translated fragment (the model cannot be regenerated from the source)",
                                "detail": why})
     if dflt != C01_ast.DOCUMENTED_DEFAULTS:
         diff = {f"{k[0]}.{k[1]}": (dflt.get(k), C01_ast.DOCUMENTED_DEFAULTS.get(k)) for k in set(dflt) | set(C01_ast.DOCUMENTED_DEFAULTS)
@@ -615,7 +622,7 @@ def run_ast_tie(chk):
     ok_names = [name for name, text, _ in items if text is not None]
     procs = []
     for name in ok_names:
-        sig = C01_ast.SIGS[name]
+        sig = sigs[name]
         binders = " ".join(f"({p_} : {ty})" for p_, ty in sig)
         args = " ".join(p_ for p_, _ in sig)
         unf = ", ".join([f"ast_{n}" for n in ok_names] + [f"g_{n}" for n in ok_names])
@@ -699,6 +706,48 @@ def defaults_predicate(chk):
 
 
 
+def repeat_call_predicate(chk):
+    """multi-step sequences: the refolding functions are called TWICE with the same (mutable) list object as `shape`, and
+    matricize twice with the same lists of modes; every call must return the original tensor / the same matrix (an
+    implementation that re-arranges the caller's list instead of a copy passes any single call)"""
+    import tensorly as tl
+    from tensorly import base
+    for shape in [(2, 3, 2), (3, 2, 2, 2), (2, 1, 3), (4, 3)]:
+        a = labelled(shape)
+        n = len(shape)
+        seqs = []
+        for m in range(n):
+            seqs.append(("fold", (m,), lambda shp, m=m: tl.fold(tl.unfold(a, m), m, shp)))
+        seqs.append(("vec_to_tensor", (), lambda shp: tl.vec_to_tensor(tl.tensor_to_vec(a), shp)))
+        for sb in range(0, n):
+            for m in range(0, n - sb):
+                seqs.append(("partial_fold", (m, sb), lambda shp, m=m, sb=sb: tl.partial_fold(tl.partial_unfold(a, m, sb, 0, False), m, shp, sb, 0)))
+            seqs.append(("partial_vec_to_tensor", (sb,), lambda shp, sb=sb: tl.partial_vec_to_tensor(tl.partial_tensor_to_vec(a, sb, 0), shp, sb, 0)))
+        for name, args, f in seqs:
+            shp = list(shape)
+            outs = [C.call_impl(f, shp) for _ in range(3)]
+            if ("crash", "timeout") in outs:
+                continue
+            chk.cov["evaluations"] += 3
+            bad = None
+            if shp != list(shape):
+                bad = f"the caller's shape list was changed to {shp}"
+            for j, (st, v) in enumerate(outs):
+                if st != "ok" or np.asarray(v).shape != a.shape or not np.array_equal(v, a):
+                    bad = bad or f"call number {j + 1} with the same shape list does not return the original tensor"
+            if bad:
+                chk.finding(f"tensorly.base.{name}", {"shape": list(shape), "descr": repr((f"{name}{args} repeated with one list object",)), "dtype": "int64", "layout": "C"},
+                            f"{name}{args}: {bad}", "C01_repeated_calls")
+        rows, cols = [n - 1], list(range(n - 1))
+        outs = [C.call_impl(lambda _: base.matricize(a, rows, cols), None) for _ in range(2)]
+        if ("crash", "timeout") not in outs:
+            chk.cov["evaluations"] += 2
+            if rows != [n - 1] or cols != list(range(n - 1)) or outs[0][0] != "ok" or outs[1][0] != "ok" or not np.array_equal(outs[0][1], outs[1][1]):
+                chk.finding("tensorly.base.matricize", {"shape": list(shape), "descr": repr(("matricize repeated with one list object",)), "dtype": "int64", "layout": "C"},
+                            "matricize: the mode lists of the caller were changed, or a second call differs from the first", "C01_repeated_calls")
+
+
+
 def entry_point(d):
     return {"moveaxis": "tensorly.moveaxis", "transpose": "tensorly.transpose", "reshape": "tensorly.reshape",
             "moveaxis_generic": "tensorly.backend.core.Backend.moveaxis"}.get(d[0], f"tensorly.base.{d[0]}")
@@ -739,6 +788,7 @@ def run(chk):
     all_combos = [(dt, lay) for dt in DTYPES for lay in LAYOUTS]
     seen_combo = set()
     defaults_predicate(chk)
+    repeat_call_predicate(chk)
     corpus = load_corpus()
     stream = itertools.chain(((tuple_deep(c["descr"]), tuple(c["shape"])) for c in corpus), gen_cases(tier, rng))
     for d, shape in stream:
@@ -831,11 +881,11 @@ def replay(payload):
     C.reset_backends()
     d = tuple_deep(ast.literal_eval(inp["descr"]))
     shape = tuple(inp["shape"])
-    if len(d) == 1 and "(" in d[0]:          # a finding of defaults_predicate
+    if len(d) == 1 and ("(" in d[0] or "repeated" in d[0]):          # a finding of defaults_predicate / repeat_call_predicate
         class _Chk:
             cov = {"evaluations": 0}; found = []
             def finding(self, *a): self.found.append(a)
-        c_ = _Chk(); defaults_predicate(c_)
+        c_ = _Chk(); defaults_predicate(c_); repeat_call_predicate(c_)
         print("replay:", d, "->", c_.found[0][2] if c_.found else "holds")
         return 1 if c_.found else 0
     dtn = inp.get("dtype", "int64")
